@@ -99,6 +99,9 @@ def _backlink(ev):
 
 def vacuity(r):
     s = r["stats"]
+    cap = (r.get("tags", {}).get("VIOLCAP") or [{}])[0]
+    if cap and cap.get("recorded", 0) >= cap.get("cap", 1):
+        return "the trace spec stopped recording failures at its cap: some failures were not examined"
     if s.get("snaps", 0) == 0:
         return "no dispatcher snapshot was recorded (hook not compiled in?)"
     if s.get("nets", 0) == 0:
@@ -127,9 +130,9 @@ GROUP = dict(
                      _M("MCDispatch_n2_2.cfg"), _M("MCDispatch_n2_3.cfg", workers=16, timeout=1800),
                      _M("MCDispatch_n1_4.cfg", workers=16, timeout=1800),
                      _M("MCDispatch_live.cfg", coverage=False), _M("MCDispatch_live3.cfg", coverage=False, timeout=1800),
-                     dict(cfg="MCDispatchScen_3.cfg", spec="MCDispatchScen.tla", emit=True, max_emit=2500, workers=8, coverage=False, timeout=1800)],
+                     dict(cfg="MCDispatchScen_3.cfg", spec="MCDispatchScen.tla", emit=True, max_emit=1000, workers=8, coverage=False, timeout=1800)],
     },
-    gen_n={"quick": 70, "thorough": 1500},
+    gen_n={"quick": 70, "thorough": 600},
     per_case_ms=60000,
     harness_timeout={"quick": 600, "thorough": 3600},
     trace_timeout={"quick": 600, "thorough": 3600},
